@@ -73,6 +73,7 @@ def _check_molecule(ident, m0, rec, perms, n_shuffle, n_r, n_rd, r, rd_source=No
     from bounded import domains as D, d01_molgen as G
     from oracles import iso
     from oracles.o01_gaps import gaps
+    from oracles.o01_stereo import stereo_isomorphic
     from chython import smiles
     s0 = str(m0)
     h0 = hash(m0)
@@ -80,7 +81,7 @@ def _check_molecule(ident, m0, rec, perms, n_shuffle, n_r, n_rd, r, rd_source=No
     ncases = 0
     keys = set()
     bad = {}
-    info = {'rd_unparsed': 0, 'rd_label_mismatch': 0, 'dropped': 0}
+    info = {'rd_unparsed': 0, 'rd_rejected': 0, 'rd_not_isomorphic': 0, 'rd_undecided': 0, 'dropped': 0, 'samples': []}
 
     def note(rel, what, witness):
         if rel not in bad:
@@ -134,7 +135,7 @@ def _check_molecule(ident, m0, rec, perms, n_shuffle, n_r, n_rd, r, rd_source=No
         if rm is None or rm.GetNumAtoms() != n:
             info['rd_unparsed'] += 1
         else:
-            lab0 = _n_labels(m0)
+            src = rd_source if rd_source is not None else s0
             for i in range(n_rd):
                 try:
                     text = _rd_random(rm, r, bool(i % 2))
@@ -145,19 +146,24 @@ def _check_molecule(ident, m0, rec, perms, n_shuffle, n_r, n_rd, r, rd_source=No
                     m = smiles(text)
                     D.norm(m)
                 except Exception as e:
-                    ncases += 1
-                    note('respell-rdkit', f'reading / normalising the spelling raised {type(e).__name__}: {e}',
-                         {'text': text, 'rdkit_source': rd_source if rd_source is not None else s0})
+                    # the reader (or its Kekule step) rejects the foreign text, e.g. RDKit's aromatic spelling of a ring chython does
+                    # not treat as aromatic: acceptance of texts is C03 / C05, C01 speaks about descriptions that were read
+                    info['rd_rejected'] += 1
+                    info['samples'].append(('rejected', text, src, f'{type(e).__name__}: {e}'))
                     continue
-                if _n_labels(m) != lab0:
-                    # the other toolkit wrote fewer / more stereo labels than m carries: the text is a spelling of a less (more)
-                    # specified structure, not of m - outside "re-reading the molecule from another valid spelling of it"
-                    info['rd_label_mismatch'] += 1
+                same = stereo_isomorphic(m0, m)
+                if same is not True:
+                    # precondition "s is a spelling of m": decided by the reference enumerator incl. configuration.  RDKit's writer
+                    # drops / re-assigns labels it considers non-stereogenic (fused small rings, cages), such a text denotes another
+                    # (less specified) structure.  Reader faults are C02's subject (write -> read under the written order).
+                    info['rd_not_isomorphic' if same is False else 'rd_undecided'] += 1
+                    if same is False and _n_labels(m) == _n_labels(m0):
+                        info['samples'].append(('not-isomorphic', text, src, str(m)))
                     continue
                 ncases += 1
                 d = _differs(m, m0, s0, h0)
                 if d:
-                    note('respell-rdkit', d, {'text': text, 'rdkit_source': rd_source if rd_source is not None else s0})
+                    note('respell-rdkit', d, {'text': text, 'rdkit_source': src})
                 if text != s0 and n > 1:
                     keys.add((s0, 'respell-rdkit'))
     gap = gaps(m0)
@@ -217,6 +223,7 @@ def bounded(run):
     env.setup()
     from bounded import domains as D, d01_molgen as G
     from oracles import iso
+    from oracles.o01_stereo import stereo_isomorphic
     quick = run.tier == 'quick'
     max_nodes, full_limit, trials = (6, 5, 5) if quick else (7, 6, 6)
     k_seeded = 20
@@ -225,8 +232,11 @@ def bounded(run):
                '(specification, not verified)',
                'oracles/o01_gaps.py: the two documented gaps of C01 are decided on orbits of the stereo-free graph with the predicates '
                'fixed in DESIGN section 2 C01 (automorphism enumeration capped at 20000 per molecule)',
-               'RDKit 2026.03 is a trusted independent SMILES writer (random-order and Kekule spellings); a RDKit text that carries a '
-               'different number of stereo labels than the molecule is a spelling of another (less specified) structure and is not used',
+               'oracles/o01_stereo.py: "same structure incl. configuration" = some constitutional isomorphism maps every tetrahedral / '
+               'allene / cis-trans label onto an equal one (uses only the stored-sign convention, never the canonicaliser)',
+               'RDKit 2026.03 is an independent SMILES writer (seeded atom order, aromatic and Kekule style); a RDKit text is used as a '
+               're-spelling only if the molecule read from it is isomorphic incl. configuration to the original for oracles/o01_stereo.py '
+               '(RDKit drops / re-assigns labels in fused small rings); texts rejected by the reader are counted, not judged (C03/C05)',
                'kekule(); thiele() is the aromaticity normal form of the statement ("once aromaticity is normalised")',
                'hash agreement is checked inside one process (PYTHONHASHSEED fixed per process; cross-process stability is C19)')
 
@@ -257,7 +267,8 @@ def bounded(run):
     corpus_res = [x for part in pmap(_corpus_worker, jobs) for x in part]
 
     notes = {'gap1_molecules': 0, 'gap2_molecules': 0, 'gap_hits': 0, 'gap_hit_samples': [], 'rdkit_unparsed': 0,
-             'rdkit_label_mismatch': 0, 'labels_not_accepted_on_rebuild': 0, 'molecules': 0, 'stereo_molecules': 0}
+             'rdkit_text_rejected_by_reader': 0, 'rdkit_text_not_stereo_isomorphic': 0, 'rdkit_text_undecided': 0,
+             'rdkit_samples': [], 'labels_not_accepted_on_rebuild': 0, 'molecules': 0, 'stereo_molecules': 0}
     by_string = {}
     for domain, res in (('atlas', atlas_res), ('corpus', corpus_res)):
         for ident, s0, ncases, keys, gap, bad, info, nlab in res:
@@ -266,7 +277,12 @@ def bounded(run):
             notes['gap1_molecules'] += gap[0]
             notes['gap2_molecules'] += gap[1]
             notes['rdkit_unparsed'] += info['rd_unparsed']
-            notes['rdkit_label_mismatch'] += info['rd_label_mismatch']
+            notes['rdkit_text_rejected_by_reader'] += info['rd_rejected']
+            notes['rdkit_text_not_stereo_isomorphic'] += info['rd_not_isomorphic']
+            notes['rdkit_text_undecided'] += info['rd_undecided']
+            for x in info['samples']:
+                if len(notes['rdkit_samples']) < 10:
+                    notes['rdkit_samples'].append(list(x))
             notes['labels_not_accepted_on_rebuild'] += info['dropped']
             run.case(ncases)
             for k in keys:
@@ -297,7 +313,7 @@ def bounded(run):
         ref = mol_of(*members[0])
         for other in members[1:]:
             pairs += 1
-            if not iso.is_isomorphic(ref, mol_of(*other)):
+            if stereo_isomorphic(ref, mol_of(*other)) is False:
                 run.violation(f'collision:{members[0][1]}|{other[1]}',
                               f'C01 over-merge: non-isomorphic molecules share the canonical string {s0!r}',
                               witness={'relation': 'collision', 'a': members[0], 'b': other, 'record_a': by_id.get(members[0][1]),
